@@ -399,30 +399,7 @@ func init() {
 			}
 			blob = &jsonBlob{raw: raw}
 		}
-		var fm *fileModel
-		gz := false
-		switch d := dst.v.(type) {
-		case *fileModel:
-			fm = d
-		case *gzWriterModel:
-			if d.closed || d.f == nil || d.f.closed || !d.f.write {
-				return tuple{int64(0), i.pathErr("write", "?", "file already closed", false)}
-			}
-			// buffered by the compressor until Close; the file holds a bare gzip header
-			d.pending = blob
-			d.f.node.gz = true
-			return tuple{int64(1), iface{}}
-		default:
-			unsupportedf("io.Copy to %T", dst.v)
-		}
-		if fm == nil || fm.closed || !fm.write {
-			return tuple{int64(0), i.pathErr("write", "?", "file already closed", false)}
-		}
-		if !i.env.fsm().step("write", fm.path) {
-			return tuple{int64(0), i.pathErr("write", fm.path, "input/output error", false)}
-		}
-		fm.node.data, fm.node.gz = blob, gz
-		return tuple{int64(1), iface{}}
+		return i.writeBlobTo(dst, blob)
 	})
 
 	// ---- harness-side access to the model (native twins in vh_native.go use the real OS) ----
@@ -574,6 +551,34 @@ func (i *interpreter) writeFile(p string, data value) value {
 	}
 	n.data = blob
 	return iface{}
+}
+
+// writeBlobTo: one write of a whole payload to a file or gzip writer model.
+func (i *interpreter) writeBlobTo(dst iface, blob *jsonBlob) value {
+	var fm *fileModel
+	gz := false
+	switch d := dst.v.(type) {
+	case *fileModel:
+		fm = d
+	case *gzWriterModel:
+		if d.closed || d.f == nil || d.f.closed || !d.f.write {
+			return tuple{int64(0), i.pathErr("write", "?", "file already closed", false)}
+		}
+		// buffered by the compressor until Close; the file holds a bare gzip header
+		d.pending = blob
+		d.f.node.gz = true
+		return tuple{int64(1), iface{}}
+	default:
+		unsupportedf("write to %T", dst.v)
+	}
+	if fm == nil || fm.closed || !fm.write {
+		return tuple{int64(0), i.pathErr("write", "?", "file already closed", false)}
+	}
+	if !i.env.fsm().step("write", fm.path) {
+		return tuple{int64(0), i.pathErr("write", fm.path, "input/output error", false)}
+	}
+	fm.node.data, fm.node.gz = blob, gz
+	return tuple{int64(1), iface{}}
 }
 
 func (i *interpreter) readAll(r value) value {
